@@ -141,7 +141,7 @@ def run_once(tid, progs, schedule, cold, fresh, fp_warm, rng):
             'fpWarm': interned.setdefault(fp_warm, len(interned) + 1),
             'raised': ';'.join(['%s:%s' % kv for kv in sorted(r.errors.items(), key=str)] + run_once.errors[:2]),
             'schedule': schedule, 'progs': {str(k): [v[0], v[1][:60]] for k, v in progs.items()}, 'cold': cold,
-            'yields': dict(r.yields)}
+            'yields': dict(r.yields), 'envchanged': ','.join(sorted(r.env_changes))}
 
 
 run_once.interned = {}
@@ -212,7 +212,8 @@ def run(tier):
             I = run_once.interned
             traces.append({'id': 100000 + j, 'events': events, 'expected': len(events), 'warm': False,
                            'fpBefore': 0, 'fpAfter': I.setdefault(fp, len(I) + 1), 'fpWarm': I.setdefault(seq_ref, len(I) + 1),
-                           'raised': ';'.join(seq_errors[:2]), 'schedule': ['sequential'] + list(perm), 'progs': {}, 'cold': True, 'yields': {}})
+                           'raised': ';'.join(seq_errors[:2]), 'schedule': ['sequential'] + list(perm), 'progs': {}, 'cold': True, 'yields': {},
+                           'envchanged': ''})
         # call histories: many small programs (string literals with every prefix and escape, semantic-rule statements)
         # through one warm grammar in several orders; every result must be the fresh interpreter's and the shared
         # state must not move (state remembered from one call to a later one: memo tables keyed by text, counters)
@@ -245,10 +246,10 @@ def run(tier):
                            'fpBefore': I.setdefault(fp0, len(I) + 1), 'fpAfter': I.setdefault(fp1, len(I) + 1),
                            'fpWarm': I.setdefault(fp1, len(I) + 1), 'raised': ';'.join(herr[:2]),
                            'schedule': ['history', vh, j], 'progs': {'order': [t[:40] for t in order[:12]]}, 'cold': False,
-                           'yields': {}})
+                           'yields': {}, 'envchanged': ''})
         out.cov(history_orders=len(orders), history_calls_per_order=len(hist_texts))
         sched.reset_memo()
-        slim = [{k: t[k] for k in ('id', 'events', 'expected', 'warm', 'fpBefore', 'fpAfter', 'fpWarm', 'raised')}
+        slim = [{k: t[k] for k in ('id', 'events', 'expected', 'warm', 'fpBefore', 'fpAfter', 'fpWarm', 'raised', 'envchanged')}
                 for t in traces]
         d = scratch.sub('v')
         tlc.prepare(d, ['ThreadTrace'], {'batch.json': json.dumps({'traces': slim})})
